@@ -85,6 +85,12 @@ def setPrevOf (t : PTable) (x : Nxt) (p : Option Nat) : PTable :=
   | .item n => t.setPrev n p
   | .stl _ => { t with endPrev := p }
 
+/-- `x->prev` where `x` is an item or the own sentinel -/
+def prevOf (t : PTable) (x : Nxt) : Option Nat :=
+  match x with
+  | .item p => (t.items p).prev
+  | .stl _ => t.endPrev
+
 /-- `while(item) { if(item->key == key) return item; item = item->nextCell; }`; outer `none` = out of fuel -/
 def walk (items : Nat → PItem) (k : Nat) : Nat → Option Nat → Option (Option Nat)
   | _, none => some none
@@ -111,35 +117,35 @@ def allocItem (kind : Kind) (t : PTable) : Nat × PTable :=
       let t1 := ((t.setPrev (b + 1) none).setPrev (b + 2) (some (b + 1))).setPrev (b + 3) (some (b + 2))
       (b, { t1 with freeItem := some (b + 3), blocks := t.blocks + 1 })
 
+/-- construct the item and push it to the front of the chain of bucket `c`:
+    `new(item) Item(key, value); item->cell = cell = &data[c]; if((item->nextCell = *cell)) item->nextCell->cell = &item->nextCell; *cell = item` -/
+def linkChain (kind : Kind) (t1 : PTable) (item c k v : Nat) : PTable :=
+  let newItem : PItem := { t1.items item with key := k, value := Table.storedValue kind v, cell := .bucket c, nextCell := t1.heads c }
+  let t2 : PTable := { t1 with items := upd t1.items item newItem }
+  let t3 := match t2.heads c with
+    | some n => t2.setCell n (.nextOf item)
+    | none => t2
+  { t3 with heads := upd t3.heads c (some item) }
+
+/-- link the item into the order list before `pos`:
+    `if((item->prev = insertPos->prev)) insertPos->prev->next = item; else _begin.item = item;
+     item->next = insertPos; insertPos->prev = item; ++_size` -/
+def linkOrder (t4 : PTable) (item : Nat) (pos : Nxt) : PTable :=
+  let posPrev := t4.prevOf pos
+  let t5 := t4.setPrev item posPrev
+  let t6 := match posPrev with
+    | some q => t5.setNext q (.item item)
+    | none => { t5 with begin := .item item }
+  let t7 := t6.setNext item pos
+  let t8 := t7.setPrevOf pos (some item)
+  { t8 with size := t8.size + 1 }
+
 /-- second half of `insert` -/
 def linkNew (kind : Kind) (h : Nat → Nat) (t : PTable) (pos : Nxt) (k v : Nat) : PTable × Nat :=
   -- if(!data) { data = new …; Memory::zero(…) }
   let t0 : PTable := if t.allocated then t else { t with allocated := true, heads := fun _ => none }
   let a := t0.allocItem kind
-  let item := a.1
-  let t1 := a.2
-  let c := h k % t1.cap
-  -- new(item) Item(key, value);  item->cell = cell = &data[c];  item->nextCell = *cell
-  let newItem : PItem := { t1.items item with key := k, value := Table.storedValue kind v, cell := .bucket c, nextCell := t1.heads c }
-  let t2 : PTable := { t1 with items := upd t1.items item newItem }
-  -- if(item->nextCell) item->nextCell->cell = &item->nextCell
-  let t3 := match t2.heads c with
-    | some n => t2.setCell n (.nextOf item)
-    | none => t2
-  -- *cell = item
-  let t4 : PTable := { t3 with heads := upd t3.heads c (some item) }
-  -- insertPos = position.item;  if((item->prev = insertPos->prev)) insertPos->prev->next = item; else _begin.item = item
-  let posPrev := match pos with
-    | .item p => (t4.items p).prev
-    | .stl _ => t4.endPrev
-  let t5 := t4.setPrev item posPrev
-  let t6 := match posPrev with
-    | some q => t5.setNext q (.item item)
-    | none => { t5 with begin := .item item }
-  -- item->next = insertPos;  insertPos->prev = item;  ++_size
-  let t7 := t6.setNext item pos
-  let t8 := t7.setPrevOf pos (some item)
-  ({ t8 with size := t8.size + 1 }, item)
+  ((a.2.linkChain kind a.1 (h k % a.2.cap) k v).linkOrder a.1 pos, a.1)
 
 def insert (kind : Kind) (h : Nat → Nat) (t : PTable) (pos : Nxt) (k v : Nat) : Option (PTable × Nat) :=
   match t.find h k with
@@ -148,20 +154,26 @@ def insert (kind : Kind) (h : Nat → Nat) (t : PTable) (pos : Nxt) (k v : Nat) 
     some (if kind = Kind.map then { t with items := upd t.items id { t.items id with value := v } } else t, id)
   | some none => some (t.linkNew kind h pos k v)
 
-/-- `remove(iterator)` / PoolMap `remove(const V&)`; also returns `item->next` -/
-def removeItem (t : PTable) (item : Nat) : PTable × Nxt :=
+/-- `if((*item->cell = item->nextCell)) item->nextCell->cell = item->cell` -/
+def unlinkChain (t : PTable) (item : Nat) : PTable :=
   let it := t.items item
-  -- if((*item->cell = item->nextCell)) item->nextCell->cell = item->cell
   let t1 := t.writeCell it.cell it.nextCell
-  let t2 := match it.nextCell with
-    | some n => t1.setCell n it.cell
-    | none => t1
-  -- if(!item->prev) (_begin.item = item->next)->prev = 0; else (item->prev->next = item->next)->prev = item->prev
+  match it.nextCell with
+  | some n => t1.setCell n it.cell
+  | none => t1
+
+/-- `if(!item->prev) (_begin.item = item->next)->prev = 0; else (item->prev->next = item->next)->prev = item->prev; --_size` -/
+def unlinkOrder (t2 : PTable) (item : Nat) : PTable :=
+  let it := t2.items item
   let t3 := match it.prev with
     | none => ({ t2 with begin := it.next } : PTable).setPrevOf it.next none
     | some p => (t2.setNext p it.next).setPrevOf it.next (some p)
-  -- --_size;  item->prev = freeItem;  freeItem = item;  return item->next
-  let t4 : PTable := { t3 with size := t3.size - 1 }
+  { t3 with size := t3.size - 1 }
+
+/-- `remove(iterator)` / PoolMap `remove(const V&)`; also returns `item->next` -/
+def removeItem (t : PTable) (item : Nat) : PTable × Nxt :=
+  let t4 := (t.unlinkChain item).unlinkOrder item
+  -- item->prev = freeItem;  freeItem = item;  return item->next
   let t5 := t4.setPrev item t4.freeItem
   ({ t5 with freeItem := some item }, (t5.items item).next)
 
